@@ -1033,8 +1033,27 @@ def mapSelf (pick : Pick) (text : List Byte) : MapOutcome :=
       | none => .panic      -- `parse_symindex_file(..).unwrap()` in make_symbol_map
       | some ix => .ok ix
 
-/-- the map that is offered a stored index: used when it parses, otherwise self-indexing -/
+/-- the MODULE line stored in an index: `module_info_bytes.split(|b| *b == b'\n').next()`
+(symbol_map.rs:71-75) -/
+def storedModuleLine (ix : Index) : List Byte := ix.moduleInfo.takeWhile (· ≠ 10)
+
+/-- `matches_sym_file` (symbol_map.rs:76-79, fix 3f61c23c): the stored MODULE line is not empty and the
+`.sym` file starts with exactly these bytes (`read_bytes_at(0, len)` fails when the file is shorter) -/
+def storedMatches (text : List Byte) (ix : Index) : Bool :=
+  let m := storedModuleLine ix
+  !m.isEmpty && text.take m.length == m
+
+/-- the map that is offered a stored index (`make_index_storage`, symbol_map.rs:62-107): the stored index
+is used when it parses AND its MODULE line is the beginning of the `.sym` file; otherwise the file is
+indexed as if nothing had been offered -/
 def mapStored (pick : Pick) (text : List Byte) (stored : Option (List Byte)) : MapOutcome :=
+  if (tag tMODULE_ text).isNone then .notBreakpad
+  else match stored.bind parseSymindex with
+    | some ix => if storedMatches text ix then .ok ix else mapSelf pick text
+    | none => mapSelf pick text
+
+/-- before fix 3f61c23c: any stored index that parses was used, whatever file it had been built from -/
+def mapStoredLegacy (pick : Pick) (text : List Byte) (stored : Option (List Byte)) : MapOutcome :=
   if (tag tMODULE_ text).isNone then .notBreakpad
   else match stored.bind parseSymindex with
     | some ix => .ok ix
